@@ -1263,11 +1263,17 @@ mod c13 {
             keep: false,
         };
 
+        // 3 = the report turned out empty and was not sent at all (the reporter then calls `set_not_sent`
+        // before `set_keep`)  [finding F26]
         let outcome: u8 = kani::any();
-        kani::assume(outcome < 3);
+        kani::assume(outcome < 4);
         match outcome {
             0 => ctx.set_keep(),
             1 => ctx.set_keep_retry(),
+            3 => {
+                ctx.set_not_sent();
+                ctx.set_keep()
+            }
             _ => {}
         }
         // what the subscription is allowed to read stays its committed watermark until completion
@@ -1278,7 +1284,7 @@ mod c13 {
         kani::assert(same_frame(&s0, &s1), "C13.ctx.pending_changes_untouched");
         kani::assert(s1.reporting.is_none() && !s1.cancelled, "C13.ctx.reporting_slot_cleared");
 
-        let kept = outcome < 2 && !s0.cancelled;
+        let kept = outcome != 2 && !s0.cancelled;
         let back = if kept { s1.subs[s1.n - 1] } else { SS0 };
         if kept {
             kani::assert(s1.n == 2 && s1.count == s0.count && s1.tags[1] == tag, "C13.ctx.kept_back_in_table");
@@ -1295,6 +1301,12 @@ mod c13 {
             kani::assert(back.w == snapshot_w && back.ev == snapshot_ev, "C13.ctx.success_commits_the_snapshot");
             kani::assert(back.ra == now, "C13.ctx.success_restarts_the_intervals");
             kani::assert(back.rt == 0 && back.fc == 0, "C13.ctx.success_clears_the_retry");
+        }
+        if kept && outcome == 3 {
+            // nothing was sent: the changes looked at did not concern the subscriber (the snapshot is committed), but
+            // the liveness / expiry clock keeps measuring from the last report actually sent
+            kani::assert(back.w == snapshot_w && back.ev == snapshot_ev, "C13.ctx.unsent_commits_the_snapshot");
+            kani::assert(back.ra == old.ra, "C13.ctx.unsent_report_does_not_restart_the_intervals");
         }
         if kept && outcome == 1 {
             // failure: nothing is considered sent
@@ -1314,6 +1326,7 @@ mod c13 {
         kani::cover!(kept && outcome == 0, "acknowledged");
         kani::cover!(kept && outcome == 1, "failed, to be retried");
         kani::cover!(outcome == 2, "torn down");
+        kani::cover!(kept && outcome == 3, "empty report, not sent");
         kani::cover!(outcome < 2 && s0.cancelled, "cancelled while in flight");
     }
 
